@@ -439,6 +439,16 @@ def oracle(ctx, c, a):
         if expect != auth:
             ctx.fail("oracle", "decided-authority-differs", show(c),
                      {"impl": a, "expected": "none" if expect is None else "%r:%s" % (expect[0], port_s(expect[1]))})
+    # (3b) Host header and request-target name the SAME authority text (host and port written identically): one authority is
+    # determined, and it is that one -- whatever scheme the target carries and whether or not the port is that scheme's default
+    hp_, up_ = c.get("host_parts"), c.get("uri_parts")
+    if (len(c["hosts"]) == 1 and hp_ is not None and up_ is not None and kh is not None and kh[0] == "ok"
+            and hp_.scheme is None and hp_.host == up_.host and hp_.port == up_.port and hp_.userinfo is None and up_.userinfo is None
+            and up_.scheme in (None, b"http", b"https", b"ws", b"x", b"HTTP") and c["hosts"][0] == hp_.text()):
+        ctx.count("oracle:identical-host-and-target-authority")
+        if auth != (kh[1], kh[2]):
+            ctx.fail("oracle", "identical-host-and-uri-authority-not-decided", show(c),
+                     {"impl": a, "expected": "%r:%s" % (kh[1], port_s(kh[2]))})
     # the decided host is literally part of what the client sent
     if auth is not None and not any(auth[0] in t for t in c["hosts"] + ([c["uri"]] if c["uri"] else [])):
         ctx.fail("oracle", "decided-host-not-in-request", show(c), a)
